@@ -23,6 +23,41 @@ def pad_first_header(data, n):
     return data[:i] + b', x=' + b'a' * n + data[i:]
 
 
+def header_lines(data):
+    """(start, end) of every header line (end = offset of its LF) of a writer-produced file,
+    found by framing: content is skipped by its declared length"""
+    import re
+    out = []
+    pos = 0
+    while pos < len(data):
+        e = data.find(b'\n', pos)
+        if e < 0 or not data.startswith(b'#', pos):
+            break
+        out.append((pos, e))
+        m = re.search(rb'(?:^|[ ,])length=([0-9]+)', data[pos:e])
+        pos = e + 1
+        if m and re.match(rb'#\.{0,3}(preamble|meta|diff):', data[out[-1][0]:e]):
+            pos += int(m.group(1))
+    return out
+
+
+def variant(data, idx, n, crlf):
+    """pad header number `idx` with an `x=aaa…` option of n characters; optionally end every
+    header line with CRLF"""
+    hs = header_lines(data)
+    out = bytearray()
+    prev = 0
+    for j, (a, e) in enumerate(hs):
+        out += data[prev:e]
+        if j == idx and n > 0:
+            out += (b', x=' if b' ' in data[a:e] else b' x=') + b'a' * n
+        if crlf:
+            out += b'\r'
+        prev = e
+    out += data[prev:]
+    return bytes(out), (hs[idx][1] - hs[idx][0]) + (1 if crlf else 0)
+
+
 class Spec(object):
     PID = PID
 
@@ -52,6 +87,23 @@ class Spec(object):
                 d = pad_first_header(f, n)
                 for k in chunks(block, len(d)):
                     yield (d, k)
+        # other headers than the first, and CRLF header lines: for every block size the
+        # paddings that put the end of the header line (its CR / LF) next to a block boundary
+        for f in files:
+            nh = len(header_lines(f))
+            for crlf in (False, True):
+                for idx in sorted(set([0, 1, nh - 1, rng.randrange(nh)])):
+                    if idx >= nh or (idx == 0 and not crlf):
+                        continue
+                    _, hlen = variant(f, idx, 0, crlf)
+                    for k in chunks(block, len(f)):
+                        if k > 4 * block:
+                            continue
+                        want = [n for n in range(0, 2 * k + 8)
+                                if (hlen + (n + 4 if n else 0)) % k in (k - 1, 0, 1 % k)][:8]
+                        for n in want:
+                            d, _ = variant(f, idx, n, crlf)
+                            yield (d, k)
         # raw byte strings too: the theorem needs no well-formedness
         for _ in range(nrand):
             d = bytes(rng.choice([10, 10, 13, 35, 46, 32, 97, 58, rng.randrange(256)])
@@ -112,7 +164,9 @@ def explore(ctx, escalate=False, hint=None):
     else:
         budget = (3, pads, chunks_q, 2000)
     rule = ('writer-produced files x every padding 0..2*block of the first header (all alignments) x block sizes '
-            '%s + random byte strings; compared: model vs implementation at that block size, and implementation at '
+            '%s; the same files with LF and with CRLF header lines and a padded first / second / last / random '
+            'header, paddings chosen so that the end of the header line falls next to a block boundary; '
+            'random byte strings; compared: model vs implementation at that block size, and implementation at '
             'that block size vs the default; non-trivial = at least one record; distinct by (file, block size)'
             % ('1..2*block+1, len+1, 10^6' if thorough else '{1,2,3,7,b/2,b-1,b,b+1,2b-1,2b,2b+1,len+1}'))
     return base.explore_generic(ctx, Spec(ctx.tables), budget, rule, exhaustive=False, chunk=3000)
